@@ -135,7 +135,11 @@ func (c03) Generate(tier string, yield func(*engine.Case) bool) {
 			emit(srcCase("long-branch", fmt.Sprintf("then-%d-%s", n, c), "if("+c+","+sum+",0)", none, ""))
 			emit(srcCase("long-branch", fmt.Sprintf("else-%d-%s", n, c), "if("+c+",0,"+sum+")", none, ""))
 			emit(srcCase("long-branch", fmt.Sprintf("and-%d-%s", n, c), c+" && ("+sum+" == "+fmt.Sprint(n)+")", none, ""))
-			emit(srcCase("long-branch", fmt.Sprintf("both-%d-%s", n, c), "if("+c+","+sum+","+sum+"+1)", none, ""))
+			if n <= 22000 {
+				// (two 66 000-term branches are one 132 000-term program: the front end's quadratic
+				// passes then need minutes on a loaded machine, which the watchdog reported as a hang)
+				emit(srcCase("long-branch", fmt.Sprintf("both-%d-%s", n, c), "if("+c+","+sum+","+sum+"+1)", none, ""))
+			}
 		}
 		if n <= 3000 {
 			emit(srcCase("thunk-stack", fmt.Sprintf("second-%d", n), "second(0,"+nest+")", none, ""))
